@@ -350,6 +350,25 @@ func runC19(rep *Report, tier string, seed int64, replay string) {
 			rep.addViolation("property", "C19:stress:crash", "the stress child died (unrecovered panic or deadlock)", map[string]any{"cmd": fmt.Sprintf("bin/harness -sub c19stress %d", rounds)})
 		}
 	}
+	// Receive on fresh keys racing Close (windows between two critical sections of one operation have no yield point)
+	crMs := 800
+	if tier == "thorough" {
+		crMs = 8000
+	}
+	if out, _, code := runSelf("-sub", "c19closerace", fmt.Sprint(crMs)); true {
+		n := 0
+		for _, l := range strings.Split(out, "\n") {
+			if strings.HasPrefix(l, "BAD ") {
+				rep.addViolation("property", "C19:closerace:"+l[strings.LastIndex(l, ": ")+2:], l[4:], map[string]any{"cmd": fmt.Sprintf("bin/harness -sub c19closerace %d", crMs)})
+			}
+			fmt.Sscanf(l, "DONE rounds=%d", &n)
+		}
+		rep.Evaluations += n
+		rep.Extra["closerace_rounds"] = n
+		if code != 0 || n == 0 {
+			rep.addViolation("property", "C19:closerace:crash", "the close-race child died", map[string]any{"cmd": fmt.Sprintf("bin/harness -sub c19closerace %d", crMs)})
+		}
+	}
 	rep.Exhaustive = false
 	rep.Extra["schedules_exhaustive_per_scenario"] = exhaustive
 	rep.Extra["scenarios"] = len(jobs)
